@@ -17,10 +17,12 @@ open Irismod Irismod.Props.C12
 #print axioms record_import_partial
 #print axioms record_two_swap
 #print axioms record_roundtrip_fails
--- HTLC (F-gen-1)
-#print axioms htlc_roundtrip_fails
+-- HTLC (F-gen-1, fixed by 1f718dc: the statement holds; the finding is kept for the record)
+#print axioms htlc_prefix_rule_failed
+#print axioms htlc_gen1_regression
 #print axioms htlc_validate_partial
 #print axioms htlc_fixed_validates
+#print axioms htlc_export_validates_mini
 -- oracle (F-gen-2)
 #print axioms oracle_import_keeps_last_written
 #print axioms oracle_roundtrip_fails
